@@ -512,10 +512,16 @@ func checkC17(c *checkCtx) {
 			wantHedge := false
 			for a := n; a.Parent != nil; a = a.Parent {
 				if pp := v.policyAt(sc, a.Parent.Pos); pp != nil && pp.Kind == KHedge {
-					for k, ch := range a.Parent.Children {
-						if ch == a && k > 0 {
-							wantHedge = true
+					// the original attempt is the one whose goroutine was started first (task ids follow creation
+					// order); the order in which the attempts got to log their entry may differ when they start at once
+					orig := a.Task
+					for _, ch := range a.Parent.Children {
+						if ch.Task < orig {
+							orig = ch.Task
 						}
+					}
+					if a.Task != orig {
+						wantHedge = true
 					}
 				}
 			}
